@@ -29,15 +29,15 @@ type c19Case struct {
 	CloseErr  bool   `json:"close_err,omitempty"` // the transport's Close closes but reports an error
 	Label     string `json:"label,omitempty"`
 	// sched
-	Background int      `json:"background,omitempty"`
+	Background int `json:"background,omitempty"`
 	// Stalled: one more client has pipelined requests and never reads the replies - the
 	// server's reply write to it is parked for good. The other connections must still come
 	// and go, and be released, as if it were not there.
-	Stalled bool `json:"stalled_reader,omitempty"`
-	Endings    []string `json:"endings,omitempty"`
-	StopAtEnd  bool     `json:"stop_at_end,omitempty"`
-	StopRace   string   `json:"stop_race,omitempty"` // Stop runs concurrently with: connecting | in-flight | tls-handshaking
-	Choices    []int    `json:"choices,omitempty"`
+	Stalled   bool     `json:"stalled_reader,omitempty"`
+	Endings   []string `json:"endings,omitempty"`
+	StopAtEnd bool     `json:"stop_at_end,omitempty"`
+	StopRace  string   `json:"stop_race,omitempty"` // Stop runs concurrently with: connecting | in-flight | tls-handshaking
+	Choices   []int    `json:"choices,omitempty"`
 }
 
 // ---- sequential part ----
